@@ -18,6 +18,9 @@ def main():
         if a.prop in ('C01', 'C02', 'C03', 'C04', 'C05', 'C06', 'C07', 'C08', 'C09', 'C19'):
             from . import mapper_run
             rc = mapper_run.check(a.prop, a.tier, seed)
+        elif a.prop == 'C18':
+            from . import iocheck
+            rc = iocheck.check(a.prop, a.tier, seed)
         elif a.prop in ('C10', 'C11', 'C12', 'C20'):
             from . import loopcheck
             rc = loopcheck.check(a.prop, a.tier, seed)
@@ -31,6 +34,13 @@ def main():
         print('INCONCLUSIVE property=%s unsupported construct: %s' % (a.prop, e))
         traceback.print_exc()
         rc = 2
+    except Exception as e:
+        print('INCONCLUSIVE property=%s engine error: %s: %s' % (a.prop, type(e).__name__, str(e)[:300]))
+        traceback.print_exc()
+        rc = 2
+    sys.stdout.flush()
+    sys.stderr.flush()
+    os._exit(rc)
     sys.exit(rc)
 
 
